@@ -7,7 +7,8 @@ SIGMA = "19.EDedAFGOTRMNX$!#%&H\"'?:;,()+-*/\\^<=> é"
 MENU_LINES = ["10 INPUT A", "10 INPUT \"Q\";A,B$", "20 PRINT A;", "30 A$=INKEY$", "40 GOTO 10", "40 GOTO 40", "50 END", "60 STOP",
               "15", "99", "70 FOR I=1 TO 3:PRINT I:NEXT", "80 GOSUB 80", "90 X=1\\0", "100 WHILE 1:WEND", "110 LIST",
               "120 PRINT \"A\";:STOP", "130 DATA 1,2", "140 READ A,B,C", "10", "150 IF A THEN 999", "160 WEND"]
-MENU_DIRECT = ["RUN", "RUN 40", "RUN 70", "LIST", "LIST 10-50", "CONT", "NEW", "CLEAR", "PRINT 1\\0", "PRINT 1", "PRINT \"X\";",
+MENU_DIRECT = ["RUN", "RUN 40", "RUN 70", "LIST", "LIST 10-50", "LIST 50-10", "DELETE 40-10", "LIST 65529-0", "LIST 70000", "DELETE 99999-5",
+               "LIST -", "DELETE -", "LIST 10-10-10", "RUN 65530", "GOTO 99999", "RENUM 65529,0,65529", "RENUM 1,2,3,4", "CONT", "NEW", "CLEAR", "PRINT 1\\0", "PRINT 1", "PRINT \"X\";",
                "FOR I=1 TO 30000:NEXT", "LOAD \"P1\"", "RUN \"P1\"", "LOAD \"NOFILE\"", "SAVE \"OUT\"", "GOTO 40", "GOTO 70",
                "GOSUB 60", "RETURN", "NEXT", "INPUT Z", "K$=INKEY$", "DELETE 10-20", "DELETE", "RENUM", "RENUM 100,,0", "TRON",
                "TROFF", "A=1:B=2:PRINT A+B", "", "   ", "?", "'", "END", "STOP", "DEF FNA(X)=X", "LOAD", "1E", "PRINT 1EE",
@@ -80,6 +81,9 @@ def soup_sessions(seed, n, lines):
                 t = t.encode("utf-8")[:ln].decode("utf-8", "ignore")
             elif k < 0.85 and lines:
                 t = r.choice(lines)
+            elif k < 0.92:
+                t = "%s %d-%d" % (r.choice(["LIST", "DELETE", "LIST", "RENUM"]), r.choice([0, 5, 10, 20, 65529, 65530, 99999]),
+                                  r.choice([0, 5, 10, 20, 65529, 65530]))
             else:
                 t = r.choice(["RUN", "LIST", "CONT", "NEW", "RUN 10", "GOTO 10"])
             op = {"op": "line", "text": t}
